@@ -740,12 +740,14 @@ class C06(C.Check):
 
     def oracle(self, ctx, res, hints, budget):
         n = 0
-        for c, D, out in self.obs:
+        for ci, (c, D, out) in enumerate(self.obs):
             n += 1
             f = direct_failure(c, D, out)
             if f and len(res.failing) < 4:
+                # the calls made before on the same (cached) domain object belong to the failing input
+                hist = [h for h, _, _ in self.obs[:ci] if h["dom"] == c["dom"]][-12:]
                 res.add_failing(signature(c, D, f), "Field.%s(spaces=%s) on %s, dtype %s: %s" % (
-                    c["op"], c.get("spaces"), c["dom"], c["dtype"], f), c)
+                    c["op"], c.get("spaces"), c["dom"], c["dtype"], f), dict(c, history=hist))
         for c, out in self.mobs:
             n += 1
             f = mf_direct_failure(c, out)
@@ -778,6 +780,8 @@ class C06(C.Check):
             return mf_direct_failure(c["mf"], mf_run(c["mf"])) is not None
         if "probe" in c:
             return any(f for name, f in extra_probes() if name == c["probe"])
+        for h in c.get("history", []):
+            run_impl(h)
         D, out = run_impl(c)
         return direct_failure(c, D, out) is not None
 
